@@ -435,6 +435,7 @@ fn retype_menu() -> Vec<(&'static str, J)> {
         ("empty-array", J::Arr(vec![])),
         ("empty-object", J::Obj(vec![])),
         ("unknown-id", J::Str("nope".into())),
+        ("long-multibyte", J::Str(long_multibyte_strings()[1].clone())),
     ]
 }
 
@@ -707,24 +708,40 @@ pub struct Doc {
     pub deviations: usize,
 }
 
+/// Long strings of multi-byte characters, shifted by 0..width ASCII letters: every byte offset below 40 falls inside a
+/// character in at least one of them (for code that cuts or indexes input strings at byte positions).
+pub fn long_multibyte_strings() -> Vec<String> {
+    let mut v = Vec::new();
+    for (ch, w) in [('\u{e9}', 2usize), ('\u{20ac}', 3), ('\u{1d11e}', 4)] {
+        for k in 0..w {
+            v.push(format!("{}{}", "a".repeat(k), ch.to_string().repeat(14)));
+        }
+    }
+    v
+}
+
 fn csv_mutations(content: &[u8]) -> Vec<(String, String, Vec<u8>)> {
     let text = String::from_utf8_lossy(content).to_string();
     let rows: Vec<Vec<String>> = text.lines().map(|l| l.split(',').map(|c| c.to_string()).collect()).collect();
     let render = |rows: &Vec<Vec<String>>| -> Vec<u8> { (rows.iter().map(|r| r.join(",")).collect::<Vec<_>>().join("\n") + "\n").into_bytes() };
     let header: Vec<String> = rows.first().cloned().unwrap_or_default();
-    let menu = ["", "nope", "!A4000000000", "!D999999999", "-1", "99999999999999999999", "0", "-0", "TextSelector", "MultiSelector;TextSelector", "AnnotationDataSelector", ";", "a;b;c", "\"", "-9223372036854775808"];
+    let longs = long_multibyte_strings();
+    let mut menu = vec!["", "nope", "!A4000000000", "!D999999999", "-1", "99999999999999999999", "0", "-0", "TextSelector", "MultiSelector;TextSelector", "AnnotationDataSelector", ";", "a;b;c", "\"", "-9223372036854775808"];
+    // shifted by one letter, one per character width (a shifted row puts free text into any column)
+    menu.extend([longs[1].as_str(), longs[3].as_str(), longs[6].as_str()]);
     let mut out = Vec::new();
     for (ri, row) in rows.iter().enumerate() {
         for (ci, _) in row.iter().enumerate() {
             let col = header.get(ci).cloned().unwrap_or_else(|| format!("col{}", ci));
             let rowclass = if ri == 0 { "header" } else { "row" };
-            for m in menu {
+            for m in menu.iter().copied() {
                 if rows[ri][ci] == m {
                     continue;
                 }
                 let mut r = rows.clone();
                 r[ri][ci] = m.to_string();
-                out.push((format!("cell:={}", if m.is_empty() { "<empty>" } else { m }), format!("{}.{}", rowclass, col), render(&r)));
+                let mname = if m.is_empty() { "<empty>".to_string() } else if m.len() > 24 { format!("long-multibyte-w{}", m.chars().last().map(|c| c.len_utf8()).unwrap_or(0)) } else { m.to_string() };
+                out.push((format!("cell:={}", mname), format!("{}.{}", rowclass, col), render(&r)));
             }
         }
         let mut r = rows.clone();
@@ -903,6 +920,9 @@ fn string_parsers(rep: &Reporter) -> u64 {
     for s in ["-9223372036854775808", "-9223372036854775809", "18446744073709551616", "99999999999999999999", "-0", "TextSelector", "annotationstore", "json", "csv", "cbor"] {
         strings.push(s.to_string());
     }
+    strings.extend(long_multibyte_strings());
+    strings.push("x".repeat(100));
+    strings.push("7".repeat(100));
     let mut n = 0;
     for s in &strings {
         let class = crate::c03::str_class(s);
@@ -933,7 +953,7 @@ fn string_parsers(rep: &Reporter) -> u64 {
 }
 
 pub fn run(rep: &Reporter) -> Coverage {
-    let dir = format!("/verif/.work/c19-{}", std::process::id());
+    let dir = crate::util::work_dir("c19");
     let _ = std::fs::remove_dir_all(&dir);
     std::fs::create_dir_all(&dir).expect("workdir");
     let seeds = build_seeds(&dir, rep.tier);
@@ -989,7 +1009,14 @@ pub fn run(rep: &Reporter) -> Coverage {
                     if bad || seed_broken {
                         let symptom = if seed_broken && !bad { "unchanged-seed-rejected".to_string() } else { verdict.clone() };
                         let seedclass = seed.name.split(':').next().unwrap_or("").to_string();
-                        let sig = format!("{}|{}|{}|{}|{}", seed.loader.name(), seedclass, doc.op, doc.class, symptom);
+                        // binary input: neither the bit nor the position within the file is part of the failure class (the position
+                        // moves with every path embedded in the file); both are in the detail and in the replay file
+                        let sig = if seed.loader == Loader::StoreCbor {
+                            let kind = if doc.op.starts_with("bitflip") { "bitflip" } else if doc.op.starts_with("byte:=") { "byte-set" } else { doc.op.as_str() };
+                            format!("{}|{}|{}|{}", seed.loader.name(), seedclass, kind, symptom)
+                        } else {
+                            format!("{}|{}|{}|{}|{}", seed.loader.name(), seedclass, doc.op, doc.class, symptom)
+                        };
                         let preview: String = if seed.loader == Loader::StoreCbor {
                             format!("<{} bytes of CBOR, see document_hex in the replay file>", doc.bytes.len())
                         } else {
@@ -1022,7 +1049,7 @@ pub fn run(rep: &Reporter) -> Coverage {
     cov.evaluations = cov.transitions;
     cov.traces_validated = cov.transitions;
     cov.distinct_nontrivial = counts.get("ok").copied().unwrap_or(0) + counts.get("inconsistent").copied().unwrap_or(0);
-    cov.rule = "seed documents are produced by the library itself from 4 histories (text, annotation selectors with gaps and temporary ids, metadata selectors, complex selectors) as STAM JSON store, annotation array (annotate_from_file), dataset file, STAM CSV files and CBOR; every single deviation (thorough: every pair on the two smallest JSON seeds) is generated: JSON on an order-preserving tree: delete / duplicate / swap-with-next of every node, retype of every node to each of 14 values (null, true, numbers incl. 2^63 and 1e308, empty string/array/object, temporary ids up to 2^64-1), @type renamed to each other type, every string redirected to every other id, every selector wrapped in a complex selector; CSV: every cell := each of 15 values, row delete/duplicate, column drop; CBOR: every truncation, every single bit flip, every byte := 5 values; each document is loaded by the real loader in a worker process (allocation cap 1 GiB live / 256 MiB per request, 5 s wall limit); verdict must be Err or a store that passes the C01-C03 consistency checks; plus all strings of length <= 3 over 14 symbols through Cursor/Type/DataFormat/SelectorKind/Offset parsers; non-trivial = documents that loaded".into();
+    cov.rule = "seed documents are produced by the library itself from 4 histories (text, annotation selectors with gaps and temporary ids, metadata selectors, complex selectors) as STAM JSON store, annotation array (annotate_from_file), dataset file, STAM CSV files and CBOR; every single deviation (thorough: every pair on the two smallest JSON seeds) is generated: JSON on an order-preserving tree: delete / duplicate / swap-with-next of every node, retype of every node to each of 15 values (null, true, numbers incl. 2^63 and 1e308, empty string/array/object, temporary ids up to 2^64-1), @type renamed to each other type, every string redirected to every other id, every selector wrapped in a complex selector; CSV: every cell := each of 18 values (incl. three long strings of 2-, 3- and 4-byte characters shifted by one letter), row delete/duplicate, column drop; CBOR: every truncation, every single bit flip, every byte := 5 values; each document is loaded by the real loader in a worker process (allocation cap 1 GiB live / 256 MiB per request, 5 s wall limit); verdict must be Err or a store that passes the C01-C03 consistency checks; plus all strings of length <= 3 over 14 symbols, nine long multi-byte strings (every byte offset below 40 inside a character in one of them) and two 100-character strings through Cursor/Type/DataFormat/SelectorKind/Offset parsers; non-trivial = documents that loaded".into();
     cov.samples = vec![
         json!({"seed": "json:text", "mutation": "retype:tempid-4e9", "path": ".annotations[].@id"}),
         json!({"seed": "cbor:text", "mutation": "bitflip3", "path": "tenth4"}),
@@ -1050,7 +1077,7 @@ pub fn replay(rep: &Reporter, case: &Value) {
     }
     let unhex = |s: &str| -> Vec<u8> { (0..s.len() / 2).filter_map(|i| u8::from_str_radix(&s[2 * i..2 * i + 2], 16).ok()).collect() };
     let loader = Loader::from_name(case["loader"].as_str().unwrap_or("")).unwrap_or(Loader::StoreJson);
-    let dir = format!("/verif/.work/c19-replay-{}", std::process::id());
+    let dir = crate::util::work_dir("c19-replay");
     let _ = std::fs::remove_dir_all(&dir);
     std::fs::create_dir_all(&dir).unwrap();
     for a in case["aux"].as_array().cloned().unwrap_or_default() {
